@@ -56,6 +56,8 @@ def corrupted(kind, ty, mode, p):
 
 
 def run(rep, tier):
+    global L
+    L = 3 if tier == 'quick' else 5            # thorough: values of <= 5 bytes
     prog = ep.endpoints_program()
     rep.bounds['requests'] = f'per endpoint: every path/query/header/auth source has 0..2 values of <= {L} symbolic bytes (headers: all 256 byte values; path/query: ASCII); two endpoints (required + optional decoders, header and cookie auth); Rust identifiers differ from log_as and wire names'
     for ename, e in ENDPOINTS.items():
